@@ -2,6 +2,7 @@
  * usage: vercmp_replay <universe-file|-> <scriptfile> [first]
  *   universe file: one text per line as [codes]; line k is text k (1-based)
  * Steps (state token always "-"):
+ *   (an optional last argument of both steps is the run-time debug level of the step, default 0)
  *   row <i>        = r<d1><d2>...   text i against every text j of the universe, one digit per j
  *   pair <a> <b>   = <d>            one pair given literally
  * For every ordered pair (a, b), both arguments exact-size heap copies:
@@ -33,14 +34,21 @@ __attribute__((noinline)) static void dirty_stack(int byte) {
     __asm__ volatile("" : : "r"(buf) : "memory");
 }
 
-static int one(const unsigned char *a, size_t la, const unsigned char *b, size_t lb) {
+/* lvl = the run-time debug level of this step (a dimension of every case, see c12_util.h).  Level 0: the protocol of the
+ * header.  Level L > 0: r1 = compare(a, b) at level L (stack 0xAA..), r2 = compare(a, b) at level 0 (stack 0x55..),
+ * r3 = compare(b, a) at level L: digit 5 then says "the result depends on the debug level (or the stack)". */
+static int one(const unsigned char *a, size_t la, const unsigned char *b, size_t lb, int lvl) {
     int r1, r2, r3, d;
     dirty_stack(0xAA);
+    cu_set_level(lvl);
     r1 = (int) spiftool_version_compare((spif_charptr_t) a, (spif_charptr_t) b);
+    cu_set_level(0);
     dirty_stack(0x55);
     r2 = (int) spiftool_version_compare((spif_charptr_t) a, (spif_charptr_t) b);
     dirty_stack(0xAA);
+    cu_set_level(lvl);
     r3 = (int) spiftool_version_compare((spif_charptr_t) b, (spif_charptr_t) a);
+    cu_set_level(0);
     if (r1 < -1 || r1 > 1 || r2 < -1 || r2 > 1 || r3 < -1 || r3 > 1) return 9;
     d = 0;
     if (r1 != r2) d |= 1;
@@ -76,16 +84,17 @@ static void vh_end(void) { }
 static const char *vh_step(const vh_step_t *st, vh_sb *ret, vh_sb *state) {
     static char msg[96];
     sb_putc(state, '-');
-    if (!strcmp(st->op, "row") && st->nargs == 1) {
-        long i = vh_int(st->args[0]) - 1, j;
+    if (!strcmp(st->op, "row") && (st->nargs == 1 || st->nargs == 2)) {
+        long i = vh_int(st->args[0]) - 1, j; int lvl = st->nargs == 2 ? (int) vh_int(st->args[1]) : 0;
         if (i < 0 || i >= UN) return "row_index_outside_universe";
         sb_putc(ret, 'r');
-        for (j = 0; j < UN; j++) sb_putc(ret, (char) ('0' + one(U[i], ULEN[i], U[j], ULEN[j])));
+        for (j = 0; j < UN; j++) sb_putc(ret, (char) ('0' + one(U[i], ULEN[i], U[j], ULEN[j], lvl)));
         return NULL;
     }
-    if (!strcmp(st->op, "pair") && st->nargs == 2) {
+    if (!strcmp(st->op, "pair") && (st->nargs == 2 || st->nargs == 3)) {
+        int lvl = st->nargs == 3 ? (int) vh_int(st->args[2]) : 0;
         size_t la, lb; unsigned char *a = cu_text(st->args[0], &la), *b = cu_text(st->args[1], &lb);
-        sb_putc(ret, (char) ('0' + one(a, la, b, lb)));
+        sb_putc(ret, (char) ('0' + one(a, la, b, lb, lvl)));
         free(a); free(b);
         return NULL;
     }
@@ -97,6 +106,7 @@ int main(int argc, char **argv) {
     if (argc < 3) { fprintf(stderr, "usage: %s <universe|-> <scripts> [first]\n", argv[0]); return 2; }
     libast_set_program_name("vercmp_replay");
     DEBUG_LEVEL = 0;
+    cu_levels_init();
     dirty_init();
     load_universe(argv[1]);
     return vh_main(argc, argv, 2);
